@@ -1,5 +1,7 @@
 import Proofs.Machine.Run
 import Proofs.Machine.Streaming
+import Proofs.InputPath
+import Proofs.ViewSites
 /-!
 C11 — output is streamed: bounded lag behind the input, never revised.
 
@@ -100,5 +102,148 @@ theorem conflict_region_held {cfg : Cfg} {m m' : M} {l : L} {c : MCCommit} {mp :
   · cases e
   · simp only at e
     split at e <;> (cases e; exact ⟨rfl, rfl⟩)
+
+/-! ## The input side (session 4, T14): no line waits in the reader stack
+
+`DeltaModel/InputPath.lean`: a blocking byte pipe with arbitrary chunking and the consumer program *compiled from the
+generated description* of what `run_app` puts between stdin and `delta()` (`Generated/InputPath.lean`, from
+src/main.rs, src/delta.rs, the bytelines crate). -/
+
+/-- the reader stack of the current source is the plain one: no read of the input happens before `delta()` is
+called, in the stdin branch and in the subcommand branch of `run_app`; the reader is handed to nothing but `delta()`;
+the consume loop takes one line per iteration with `lines.next()` and touches `lines` nowhere else; the line reader
+splits at `\n`. (With the seeded change C11-w6-01 applied the generated description compiles to
+`sniffProg 8000` and this is false.) -/
+theorem generated_input_path_is_plain :
+    InputPath.stdinProg.eager = none ∧ InputPath.subcmdProg.eager = none ∧
+    InputPath.stdinProg.delim = 10 ∧ InputPath.subcmdProg.delim = 10 ∧
+    Generated.InputPath.stdinOtherConsumers = [] ∧ Generated.InputPath.subcmdOtherConsumers = [] ∧
+    Generated.InputPath.consumeLinesCalls = ["next"] := by decide
+
+/-- **`line_consumed_as_soon_as_written`** (`InputPath.ConsumedAsWritten`, spelled out in `Proofs/InputPath.lean`): for
+the reader stack of the current source (stdin branch: `git diff | delta`, delta as git's pager), for every input and
+every chunking of it — the producer writes chunks of any size at any time, every `read` of the consumer returns any
+number ≥ 1 of the bytes available, consumer steps interleave with the writes in any order — whenever the producer
+pauses, the consumer comes to rest blocked in `read` with nothing left in the pipe or in its buffer, having handed to
+the state machine exactly the complete lines of the bytes written so far; the unterminated rest is the beginning of the
+next line (handed on as the last line when the pipe is closed). No line waits in the reader stack. -/
+theorem line_consumed_as_soon_as_written (evs : List InputPath.Ev) (hint : Nat → Nat) :
+    InputPath.ConsumedAsWritten InputPath.stdinProg evs hint :=
+  InputPath.consumed_as_written generated_input_path_is_plain.1 evs hint
+
+/-- … and the same for the subcommand branch (`delta a b`, `delta git …`, `delta rg …`: the child's stdout through a
+`BufReader`). -/
+theorem line_consumed_as_soon_as_written_subcommand (evs : List InputPath.Ev) (hint : Nat → Nat) :
+    InputPath.ConsumedAsWritten InputPath.subcmdProg evs hint :=
+  InputPath.consumed_as_written generated_input_path_is_plain.2.1 evs hint
+
+/-- non-vacuity: `-a⏎-b⏎+` written as `-a`, `⏎-`, `b⏎+` with consumer steps in between and odd read sizes: at the pause
+two lines have been handed on (`-a`, `-b` as the state machine receives them) and `+` is the beginning of the third -/
+example :
+    let p := InputPath.stdinProg
+    let s := InputPath.exec p (InputPath.init p) [.write [45, 97], .cons 1, .write [10, 45], .cons 3, .write [98, 10, 43]]
+    let s' := InputPath.settle p (fun k => k % 2 + 1) (InputPath.fuelFor s) s
+    s'.handed = [[45, 97, 10], [45, 98, 10]] ∧ s'.cur = [43] ∧ InputPath.linesToMachine s' = [[45, 97], [45, 98]] ∧
+      InputPath.cstep p 1 s' = none := by decide
+
+/-- **with a `take(n).read_to_end` layer in front the statement fails** — the seeded shape (n = 8000): after `a⏎b⏎`
+the consumer is blocked in `read`, two complete lines have been written, none has been handed on. -/
+theorem line_consumed_fails_with_sniff :
+    ¬ ∀ evs hint, InputPath.ConsumedAsWritten (InputPath.sniffProg 8000) evs hint := by
+  intro h
+  have := (h [.write [97, 10, 98, 10]] (fun _ => 8192)).2.2.2.2.2.1
+  revert this
+  decide
+
+/-- the same as plain facts: the blocked state, its empty list of lines, the two lines written -/
+example :
+    let p := InputPath.sniffProg 8000
+    let s := InputPath.exec p (InputPath.init p) [.write [97, 10, 98, 10], .cons 8192, .cons 1]
+    let s' := InputPath.settle p (fun _ => 8192) (InputPath.fuelFor s) s
+    InputPath.cstep p 1 s' = none ∧ s'.handed = [] ∧ s'.closed = false ∧
+      InputPath.completeLines 10 s'.sent = [[97, 10], [98, 10]] := by decide
+
+/-- `eager_read_holds_every_line_back` (general form of the counterexample): a reader stack that starts with
+`take(N).read_to_end(..)` has handed nothing to the state machine as long as fewer than N bytes have been written and
+the pipe is open — for every schedule, however many complete lines those bytes contain. Hypotheses: no `close` among the
+events (end of input ends the eager read), fewer than N bytes written (after N bytes the line loop starts). -/
+theorem eager_read_holds_every_line_back {p : InputPath.Prog} {N : Nat} (hp : p.eager = some (.upTo N))
+    (evs : List InputPath.Ev) (hne : ∀ ev ∈ evs, ev ≠ .close)
+    (hlt : (InputPath.exec p (InputPath.init p) evs).sent.length < N) :
+    (InputPath.exec p (InputPath.init p) evs).handed = [] :=
+  (InputPath.eager_read_hands_nothing hp evs hne hlt).1
+
+example : (InputPath.sniffProg 8000).eager = some (.upTo 8000) ∧
+    (InputPath.exec (InputPath.sniffProg 8000) (InputPath.init (InputPath.sniffProg 8000)) [.write [97, 10], .cons 5, .write [98, 10], .cons 1]).sent.length = 4 := by
+  decide
+
+/-- **`streamed_over_bytes_received`** — the property over *bytes received so far*: for every configuration, every
+input, every chunking and schedule, with the pipe still open: when the producer pauses, the lines the state machine has
+been given (`linesToMachine`: as `bytelines` strips them; `toL` stands for `ingest_line`, any function) are exactly the
+complete lines among the bytes written so far, the consumer is blocked in `read`, and if that point lies inside a hunk
+nothing painted is waiting in the output buffer: the rows not yet written are exactly the open run of removed / added
+lines, at most `line-buffer-size + 1` of each. (`line_consumed_as_soon_as_written` composed with
+`inside_hunk_all_written` / `lag_bounded`.) Hypothesis `hopen`: after end of input the last unterminated line is handed
+on as well and `finish` flushes (`prefix_of_own_output`). -/
+theorem streamed_over_bytes_received {cfg : Cfg} (toL : List Nat → L) (evs : List InputPath.Ev) (hint : Nat → Nat) {m : M}
+    (hopen : (InputPath.exec InputPath.stdinProg (InputPath.init InputPath.stdinProg) evs).closed = false)
+    (e : runFrom cfg {} ((InputPath.linesToMachine (InputPath.settle InputPath.stdinProg hint
+          (InputPath.fuelFor (InputPath.exec InputPath.stdinProg (InputPath.init InputPath.stdinProg) evs))
+          (InputPath.exec InputPath.stdinProg (InputPath.init InputPath.stdinProg) evs))).map toL) = .ok m)
+    (hb : isHunkBody m.st = true) :
+    let s := InputPath.exec InputPath.stdinProg (InputPath.init InputPath.stdinProg) evs
+    let s' := InputPath.settle InputPath.stdinProg hint (InputPath.fuelFor s) s
+    InputPath.linesToMachine s' = (InputPath.completeLines 10 s.sent).map InputPath.stripEol ∧
+      (∀ n, InputPath.cstep InputPath.stdinProg n s' = none) ∧
+      timeline m = m.out ++ m.minus.map HLine.row ++ m.plus.map HLine.row ∧
+      m.minus.length ≤ cfg.bufSize + 1 ∧ m.plus.length ≤ cfg.bufSize + 1 := by
+  intro s s'
+  have h := line_consumed_as_soon_as_written evs hint
+  obtain ⟨hblk, _, _, _, _, ho, _⟩ := h
+  obtain ⟨_, hh, _⟩ := ho hopen
+  refine ⟨?_, hblk, inside_hunk_all_written e hb⟩
+  show (InputPath.settle _ _ _ _).handed.map _ = _
+  rw [hh, generated_input_path_is_plain.2.2.1]
+
+/-! ## Both views (session 4, T14 iii)
+
+The machine model has no view parameter: `inside_hunk_all_written`, `lag_bounded`, … speak about *when* rows are emitted
+and how many lines are held, not about what a row looks like. That this is right for `--side-by-side` too is a statement
+about where the code reads the switch: `Generated/ViewSites.lean` (tools/extractors/viewsites.py) lists every read of
+`config.side_by_side` in the streaming path (src/delta.rs, src/handlers/*.rs, src/paint.rs, src/features/side_by_side.rs,
+line_numbers.rs, wrapping.rs) and, for every function there, whether it emits, writes to a writer, inspects / changes the
+line buffers or tests `line_buffer_size`. -/
+
+/-- **`view_does_not_change_emission_points`**: (1) the generated inventory passes `ViewSites.inventoryOk`: the two arms
+of every `if config.side_by_side { … } else { … }` have the same effect flags — they may fill the output buffer and do
+nothing else: no `emit`, no write to a writer, no access to the line buffers, no test of the buffer size, no `return`;
+no function that reads the switch, and no function of features/side_by_side.rs, emits, writes to a writer, touches the
+line buffers or tests the buffer size; (2) hence, for every sequence of calls of functions of the streaming path and every
+state, the streaming-relevant state of the painter (something in the output buffer?, number of emissions, number of
+line-buffer operations) after the calls is the same in unified and in side-by-side mode. The per-line observation hook run
+with `--side-by-side` is compared with the machine model's predictions in c11.py
+(`machine.run:side-by-side-emission-points`). -/
+theorem view_does_not_change_emission_points :
+    ViewSites.inventoryOk Generated.ViewSites.viewBranches Generated.ViewSites.fnFacts = true ∧
+    ∀ (calls : List (String × String)) (ps : ViewSites.PS),
+      ViewSites.runCalls .unified calls ps = ViewSites.runCalls .sideBySide calls ps :=
+  have h : ViewSites.inventoryOk Generated.ViewSites.viewBranches Generated.ViewSites.fnFacts = true := by decide
+  ⟨h, ViewSites.runCalls_view_indep (ViewSites.arms_of_inventoryOk h)⟩
+
+/-- the inventory is not empty: three view branches (Painter::new, paint_zero_line, paint_minus_and_plus_lines), all in
+src/paint.rs, and the emission points / the buffer-size test are where the machine model has them
+(`Painter::emit` writes, `handle_hunk_line` tests the size) -/
+example : Generated.ViewSites.viewBranches.map (fun b => (b.file, b.fn)) =
+      [("paint.rs", "new"), ("paint.rs", "paint_zero_line"), ("paint.rs", "paint_minus_and_plus_lines")] ∧
+    (ViewSites.effOf .sideBySide "handlers/hunk.rs" "handle_hunk_line").bufferSize = true ∧
+    (ViewSites.effOf .sideBySide "paint.rs" "emit").writer = true ∧
+    ViewSites.runCalls .sideBySide [("paint.rs", "paint_minus_and_plus_lines"), ("paint.rs", "emit")] {} =
+      { bufNonEmpty := true, emissions := 1, lineBufferOps := 0 } := by decide
+
+/-- `inventoryOk` is not vacuous: the shape of the seeded change C11-w5-01 (a predicate in src/paint.rs that reads the
+switch and looks at the line buffers and the buffer size) is rejected -/
+example : ViewSites.inventoryOk [] [{ file := "paint.rs", fn := "line_buffers_are_full", viewReads := 1,
+    eff := { buffer := false, writer := false, emit := false, lineBuffers := true, bufferSize := true, returns := false } }] = false := by
+  decide
 
 end C11
